@@ -883,7 +883,7 @@ def main(chk: C.Check, build: C.Build) -> None:
     fam_counts: dict[str, Any] = {}
     #        names, depth, fraction in thorough, fraction in quick
     plan = [(1, 2, 1.0, 0.25), (1, 3, 1.0, 0.25), (1, 4, 1.0, 0.1), (2, 2, 1.0, 0.1),
-            (2, 3, 1.0, 0.014), (3, 2, 0.12, 0.014),
+            (2, 3, 1.0, 0.011), (3, 2, 0.12, 0.011),
             (2, 4, 0.0023, 0.0003), (3, 3, 0.00038, 0.00005), (3, 4, 0.0000019, 0.00000025)]
     for k, d, f_th, f_q in plan:
         shapes = fam_shapes(k)
@@ -904,7 +904,7 @@ def main(chk: C.Check, build: C.Build) -> None:
                 n += 1
         fam_counts[f"names={k},depth={d}"] = {"space": total, "run": n, "complete": p >= 1.0}
     # the blank family: empty / whitespace / silent bodies, nested required blocks, if / for wrappers
-    bl_plan = [(1, 2, 1.0, 0.3), (1, 3, 1.0, 0.05), (2, 2, 1.0, 0.03),
+    bl_plan = [(1, 2, 1.0, 0.3), (1, 3, 1.0, 0.04), (2, 2, 1.0, 0.024),
                (1, 4, 0.05, 0.002), (2, 3, 0.001, 0.00006), (3, 2, 0.002, 0.0001)]
     for k, d, f_th, f_q in bl_plan:
         shapes = bl_shapes(k)
@@ -931,7 +931,7 @@ def main(chk: C.Check, build: C.Build) -> None:
         if r.random() < 0.03 and len(tpls) > 1:
             cases.append((tpls, ("wrap", [(r.random() < 0.5, entry[1])]), limit, c[3] if len(c) > 3 else True))
             fam_wrapped += 1
-    nrand = 500 if not thorough else 6000
+    nrand = 400 if not thorough else 6000
     for _ in range(nrand):
         cases.append(rand_case(r, thorough) + (r.random() < 0.75,))
     # configuration axes: markup characters in literal text / in render data with auto-escape on / off;
